@@ -128,15 +128,36 @@ TRUSTED_BASE = [
     "positive finite Doane spacing), (d) get_quantile_levels on a grid with "
     "a single line or on a density containing NaN; everything else must "
     "return values (e.g. the LinAlgError fallback of kde_gauss)",
+    "downsampling, tsv and statistics raises are judged too: a "
+    "non-negative downsampling request, a tsv export or get_statistics on "
+    "any selection must answer (only listed exception: C16's finding "
+    "C16-grid-constant-axis, IndexError of the Cython downsample_grid for a "
+    "constant axis); downsampling has a definitional oracle on every scale "
+    "pair: downsample_grid called directly on the scaled selected events "
+    "with the request capped at their number",
     "ties through stand-ins registered in the harness process: fake_kde "
     "(kde_methods.methods['veriffake'], for get_kde_scatter and "
     "get_kde_contour with dyadic grids on a linear scale) and "
     "fake_downsample_grid (patched into dclab.rtdc_dataset.core."
-    "downsampling for get_downsampled_scatter): the @Cache layer and the "
-    "three real estimators are outside these ties (differential oracle)",
-    "backend pass: HDF5-backed float32 data and hierarchy children are "
-    "compared with the plain dataset at rtol 1e-6; basin features are not "
-    "exercised (C07); float32 values are generated float32-exact",
+    "downsampling for get_downsampled_scatter), both on linear and log "
+    "scales (log contour axes with 2 nodes: interior nodes of a logarithmic "
+    "grid are not dyadic), and a stand-in for bin_width_doane; stand-ins "
+    "are patched into every dclab module namespace that refers to the real "
+    "function (a `from x import y` refactoring does not break the tie); the "
+    "@Cache layer and the three real estimators are outside these ties "
+    "(differential oracle)",
+    "backend pass: an HDF5 file (float32, values k/7, adversarial values on "
+    "the excluded events), a hierarchy child and a hierarchy child with a "
+    "manual filter of its own are compared with the plain dataset of the "
+    "selected events (statistics rel 1e-5: float32 accumulation; densities, "
+    "quantile levels rtol 1e-6; tsv rows equal); basin features are not "
+    "exercised (C07)",
+    "results of the filtered / restricted / adversarial datasets are "
+    "compared at rtol 1e-12 (not bit for bit); the contour grid must run "
+    "from the minimum to the maximum of the selected events with a node "
+    "distance in the band the requested accuracy defines (the exact node "
+    "count is not demanded); the tsv format %.10e and the sorted column "
+    "order are what the docstring of Export.tsv fixes",
     "quantile oracle: densities at the events are recomputed with an "
     "independent bilinear interpolation; counts use a tolerance of 1e-9 * "
     "max density; events within 1e-9 (relative) of the border of the grid "
@@ -2109,9 +2130,13 @@ def dtype_worker(args):
         if a[0] == "exc":
             # valid data: statistics and downsampling must answer (listed
             # exception: C16-grid-constant-axis, IndexError)
-            sel = xi[mask].astype(np.float64), yi[mask].astype(np.float64)
-            const = sel[0].size and (np.ptp(sel[0]) == 0
-                                     or np.ptp(sel[1]) == 0)
+            with np.errstate(all="ignore"):
+                sel = (sc(xi[mask].astype(np.float64),
+                          "log" if k.endswith("/log") else "linear"),
+                       yi[mask].astype(np.float64))
+            fin = np.isfinite(sel[0]) & np.isfinite(sel[1])
+            const = fin.any() and (np.ptp(sel[0][fin]) == 0
+                                   or np.ptp(sel[1][fin]) == 0)
             if k == "stats" or (k.startswith("down") and not (
                     a[1] == "IndexError" and const)):
                 fails.append("%s raises %s on valid integer-valued data"
